@@ -123,6 +123,15 @@ def condition_rules(chk, P):
             if not arms or "None" not in arms[-1]["variants"]:
                 good = False
         chk.require(good, "GUARD", "GUARD:build_read_outputs", "Err iff no output-capable signal has the identifier's name", "build_read_outputs: %d error site(s) not all on the position == None edge" % len(errs))
+    # which error: NotAnInput / NotAnOutput iff the name is a header column (found by name), else UnknownVariableOrSignal
+    for fn, field in ((CHECKS[3], "expected_inputs"), (CHECKS[4], "read_outputs")):
+        c1 = P.body(fn + "::{closure#1}")
+        if c1 is None:
+            continue
+        N = "some!(Iterator::next(IntoIterator::into_iter(Vec::drain(self.%s, ops::RangeFull{})))).0" % field
+        pt = tab.predicate_table(P, c1)
+        chk.require(tab.same_function(pt, {(frozenset(), "PartialEq<&B> for &A>::eq(elem([T]::iter(self.signals)), %s)" % N)}, bool_result=True), "TAB", "TAB:%s:error-names-the-column-of-that-name" % fn.split("::")[-1],
+                    "the reported column is the header column with the identifier's own name", "the header column for the error is selected by %s" % sorted(pt, key=str))
     # exact outcome tables of the two set-level checks
     M = "Vec::is_empty(Iterator::collect(Iterator::filter_map(Iterator::enumerate([T]::iter(self.signals)), closure({closure#0}))))"
     b = P.body(CHECKS[2])
